@@ -276,6 +276,10 @@ func grammarFrames() []frameSpec {
 			add(fmt.Sprintf("sign-k1-body%d", L), canon(func(a agent.ExtendedAgent) { a.Sign(k1, data) }), true, wantFirst(14), firstByte(5, 14))
 		}
 		add("lock-pass6000", canon(func(a agent.ExtendedAgent) { a.Lock(bytes.Repeat([]byte("p"), 6000)) }), true, wantFirst(6), firstByte(5, 6))
+		add("unlock-pass6000", canon(func(a agent.ExtendedAgent) { a.Unlock(bytes.Repeat([]byte("p"), 6000)) }), true, wantFirst(5), firstByte(5, 6)) // alone: nothing is locked, refused
+		// a signature with the hardware certificate certH1 (held in memory once an add-hardware-certificate request was
+		// accepted): in a sequence after such a request on an unlocked agent the answer is a signature
+		add("sign-h1", canon(func(a agent.ExtendedAgent) { a.Sign(certH1, []byte("signed with the hardware certificate")) }), true, wantFirst(5), firstByte(5, 14))
 		// a passphrase whose tail is itself two well-formed list frames (stale bytes replayed as requests would be answered)
 		add("unlock-wrong-pass7000-embedded-frames", canon(func(a agent.ExtendedAgent) {
 			a.Unlock(append(bytes.Repeat([]byte("q"), 6990), 0, 0, 0, 1, 11, 0, 0, 0, 1, 11))
